@@ -225,6 +225,13 @@ impl World {
         Ok(out)
     }
 
+    /// A world with the same model and no real strings (to compute what the model would hold).
+    pub fn clone_model(&self) -> World {
+        let mut w = World::new();
+        w.model = self.model.clone();
+        w
+    }
+
     /// Forget all real handles without dropping them (state may be corrupt).
     pub fn leak_all(&mut self) {
         for s in self.slots.iter_mut() {
